@@ -352,6 +352,58 @@ def check_aec(run, rule):
     run.floor(rule, 4, "aggregation obligations")
 
 
+
+# ------------------------------------------------------------------ R01.7 statistics, R01.8 order
+
+def check_stats_and_order(run):
+    facts = run.facts
+    BLKQ = "CDNS::CdnsBlock::"
+    fns = [f for f in facts.functions.values() if f.get("cls") == "CDNS::CdnsBlock" and f["qn"].split("::")[-1] in
+           ("add_question_response_record", "add_address_event_count", "add_malformed_message")]
+    for f in sorted(fns, key=lambda f: f["line"]):
+        tag = "%s(%s)" % (f["qn"].split("::")[-1], short(f["sig"][0]).replace("const ", "").replace(" &", ""))
+        env = Env(f["body"])
+        sp = "p:%s" % f["params"][1]["n"]
+        hits = []
+        stores = []
+        order = {id(n): i for i, n in enumerate(ir.walk(f["body"]))}
+        for st, g, loops in ir.guarded_statements(f["body"], env):
+            if st.get("k") in ("IfCond", "LoopHead", "SwitchHead"):
+                continue
+            for lp, rhs, node in consumption.assignment_targets([st]):
+                if lp == ("this", "m_block_statistics"):
+                    hits.append((node, g, rhs))
+            for c in ir.calls_in(st):
+                if callee_name(c) in ("push_back", "emplace_back", "insert", "emplace_front", "push_front") and path(c.get("recv")) and \
+                        path(c.get("recv"))[0] == "this" and path(c.get("recv"))[-1] in ("m_query_responses", "m_malformed_messages"):
+                    stores.append((c, g))
+        ok = len(hits) == 1 and path(hits[0][2]) == (sp,)
+        if ok:
+            extra = [a for a in conjuncts(hits[0][1]) if a != ("present", (sp,)) and not (a[0] == "bit" or (a[0] == "not" and a[1][0] == "bit")) and a[0] != "or"]
+            ok = ("present", (sp,)) in conjuncts(hits[0][1]) and not extra
+        run.ob("R01.7", tag + ":latest-statistics", ok, f, hits[0][0].get("l", f["line"]) if hits else f["line"],
+               "the statistics handed in with the record replace the block's statistics whenever they are supplied" if ok else
+               "block statistics must be overwritten exactly when the caller supplies them (guard found: %s)" % (show_f(hits[0][1]) if hits else "no assignment"))
+        for c, g in stores:
+            ok = callee_name(c) in ("push_back", "emplace_back")
+            run.ob("R01.8", tag + ":append", ok, f, c.get("l", 0),
+                   "records are appended (submission order is the stored order)" if ok else "records are inserted with %s, not appended" % callee_name(c))
+    # writer iterates the vectors front to back, reader appends, accessors walk by ascending index
+    bw = facts.fn(BLKQ + "write", rule="R01.8")
+    rng = [n for n in ir.walk(bw["body"]) if n.get("k") == "RangeFor" and path(n.get("range")) in (("this", "m_query_responses"), ("this", "m_malformed_messages"))]
+    run.ob("R01.8", "CdnsBlock::write:front-to-back", len(rng) == 2, bw, bw["line"], "query/responses and malformed messages are serialised by a forward range-for")
+    for meth, cur, vec in (("read_generic_qr", "m_qr_read", "m_query_responses"), ("read_generic_mm", "m_mm_read", "m_malformed_messages")):
+        f = facts.fn("CDNS::CdnsBlockRead::" + meth, rule="R01.8")
+        idx = [n for n in ir.walk(f["body"]) if n.get("k") == "OpCall" and n.get("op") == "[]" and path(n["args"][0]) == ("this", vec) and path(n["args"][1]) == ("this", cur)]
+        incs = [n for n in ir.walk(f["body"]) if n.get("k") == "Un" and n.get("op") in ("post++", "pre++") and path(n.get("e")) == ("this", cur)]
+        decs = [n for n in ir.walk(f["body"]) if n.get("k") in ("Un", "Bin") and n.get("op") in ("post--", "pre--", "-=", "=", "+=") and
+                path(n.get("e") if n.get("k") == "Un" else n.get("lhs")) == ("this", cur)]
+        ok = len(idx) == 1 and len(incs) == 1 and not decs
+        run.ob("R01.8", "%s:ascending-cursor" % meth, ok, f, f["line"],
+               "returns item [cursor] and advances the cursor by one" if ok else "cursor handling: %d subscript(s), %d increment(s), %d other write(s)" % (len(idx), len(incs), len(decs)))
+    run.floor("R01.7", 6, "add_* overloads")
+    run.floor("R01.8", 7, "order obligations")
+
 # ------------------------------------------------------------------ check
 
 def check(run):
@@ -436,3 +488,23 @@ def check(run):
     check_generic_mapping(run, "R01.3")
     check_time_reference(run, "R01.4")
     check_aec(run, "R01.5")
+    check_stats_and_order(run)
+    # R01.9 the CBOR primitives the round trip rests on (imported from C06/C07 + A11 over both codec units)
+    from . import C06, C07
+    from .. import ranges
+    C07.check_read_int(run, "R01.9")
+    C07.check_values(run, "R01.9")
+    C06.check_write_int(run)
+    for o in run.obs:
+        if o.rule == "R06.1":
+            o.rule = "R01.9"
+    run.floors.pop("R06.1", None)
+    for f in sorted(facts.functions.values(), key=lambda f: (f["file"], f["line"])):
+        if f.get("cls") in ("CDNS::CdnsDecoder", "CDNS::CdnsEncoder") and f.get("file", "").startswith(facts.repo):
+            seen = {}
+            for node, ok, txt in ranges.check_function(f, facts.enums):
+                base = "%s:%s" % (short(f["qn"]), show(node)[:50])
+                seen[base] = seen.get(base, 0) + 1
+                run.ob("R01.9", base if seen[base] == 1 else "%s#%d" % (base, seen[base]), ok, f, node.get("l", 0), txt)
+    run.floors.pop("R01.9", None)
+    run.floor("R01.9", 30, "codec primitive obligations")
